@@ -967,6 +967,18 @@ impl Error {
         )
     }
 
+    /// True for a syntax error reported by the parser (an alias of an undefined anchor, which the
+    /// parser reports too, is not one: it fails its document only).
+    pub(crate) fn is_syntax_error(&self) -> bool {
+        matches!(
+            self.without_snippet(),
+            Error::ExternalMessage {
+                source: ExternalMessageSource::SaphyrParser,
+                ..
+            }
+        )
+    }
+
     /// Provide "no snippet" version for cases when snippet rendering is not  desired.
     pub fn without_snippet(&self) -> &Self {
         match self {
